@@ -9,6 +9,7 @@ import GoBT.Json.Shapes
 import GoBT.Props.C01
 import GoBT.Props.C13
 import GoBT.Props.C16Float
+import GoBT.Script.WriteReviewLib
 namespace GoBT.C16
 open GoBT GoBT.Json
 
@@ -47,5 +48,13 @@ theorem rounding_fixes_counterexample :
     decodeAmount (encodeAmount 29000000) = 29000000 ∧ decodeAmount (encodeAmount 3) = 3 ∧
     decodeAmount (encodeAmount 2100000000000000) = 2100000000000000 := by
   decide +kernel
+
+/-- Regenerated fact (go/ssa write-site table of packages bt and bscript, `Gen/WritesLib.lean`): in the JSON codecs every
+    store, `copy`, `append` and every call that writes through a parameter or a `*Script` targets a buffer allocated in the
+    same function (or is a reviewed part of the function's contract), and every byte slice handed to another package
+    goes to a reviewed read-only function (GoBT/Script/WriteReviewLib.lean).  Code that appends to or writes into a
+    slice it was handed — a previous-output script, a caller's hash, a destination's old buffer — adds a row with a
+    `param:` / `field:` / `deref:` origin and breaks this obligation. -/
+theorem lib_writes_only_fresh_buffers : GoBT.Script.WriteReviewLib.writesOkFor "C16" = true := by decide +kernel
 
 end GoBT.C16
